@@ -398,15 +398,15 @@ func execC06(sc *scenario) (*stats.Case, error) {
 	}
 	// events scheduled during sync
 	fired := map[int]bool{}
-	fire := func(i int) {
+	fire := func(i int) (last *simnet.Block) {
 		e := p.Events[i]
 		fired[i] = true
 		if e.Node < 0 || e.Node >= len(sc.nodes) {
-			return
+			return nil
 		}
 		node, pn := sc.nodes[e.Node], p.Nodes[e.Node]
 		if pn.Branch != -1 {
-			return // only honest nodes grow in this version
+			return nil // only honest nodes grow in this version
 		}
 		have := int(node.Height())
 		var blocks []*simnet.Block
@@ -425,7 +425,9 @@ func execC06(sc *scenario) (*stats.Case, error) {
 				time.Sleep(2 * time.Millisecond)
 			}
 			node.Mine(blocks, true)
+			last = blocks[len(blocks)-1]
 		}
+		return last
 	}
 	start := time.Now()
 	// during-sync triggers are polled from this goroutine's loop below
@@ -468,7 +470,16 @@ func execC06(sc *scenario) (*stats.Case, error) {
 		if fired[i] {
 			continue
 		}
-		fire(i)
+		// events after the sync are sequential: the next one fires when the service has fetched what this one announced
+		// (concurrent announcements of nodes with different small reply caps run into the engine's documented rule of not
+		// asking a peer again whose reply held nothing new; the protocol's cap is 2000)
+		if last := fire(i); last != nil {
+			for d := time.Now().Add(wait / 2); time.Now().Before(d); time.Sleep(3 * time.Millisecond) {
+				if _, err := sc.s.Services.Headers.GetHeaderByHash(last.Hash.String()); err == nil {
+					break
+				}
+			}
+		}
 		quiet(wait / 2)
 	}
 	// phase 3: convergence on the final honest chain
@@ -619,8 +630,13 @@ func genC06(t *rapid.T) *C06Plan {
 			lagging = true // the service may sync the fork first; the honest node announces afterwards
 		}
 	}
-	if lagging {
-		// the service learns about the rest of the chain from an announcement of the full node
+	during := false
+	for _, e := range p.Events {
+		during = during || e.When > 0
+	}
+	if lagging || (len(p.Nodes) > 1 && during) {
+		// the service learns about the rest of the chain from an announcement of the full node (blocks mined by one
+		// node during the sync leave the other nodes behind, too)
 		p.Events = append(p.Events, C06Event{Node: 0, K: 1})
 	}
 	return p
